@@ -255,3 +255,8 @@ seed(112, "32-bit word path of the scalar SKINNY-128 encrypt puts the round cons
      ("src/skinny128-cipher.c", "        state.row[0] ^= schedule->row[0];\n        state.row[1] ^= schedule->row[1];\n        state.row[2] ^= 0x02;\n#endif\n\n        /* Shift the rows */", "        state.row[0] ^= schedule->row[0];\n        state.row[1] ^= schedule->row[1];\n        state.row[1] ^= 0x02;\n#endif\n\n        /* Shift the rows */"))
 seed(113, "SKINNY-64 parallel vec128 decrypt: inverse MixColumns forgets the row0 term of row2", ["C03.R6", "C06.R5"],
      ("src/skinny64-parallel-vec128.c", "        row2 = temp ^ row0;", "        row2 = temp;"))
+seed(114, "32-bit skinny128_LFSR3: feedback tap (x << 1) replaced by (x << 2) (value change in a path the shipped build never compiles)", ["C12.R6"],
+     ("src/skinny128-cipher.c", "    return ((x >> 1) & 0x7F7F7F7FU) ^ (((x << 7) ^ (x << 1)) & 0x80808080U);", "    return ((x >> 1) & 0x7F7F7F7FU) ^ (((x << 7) ^ (x << 2)) & 0x80808080U);"))
+seed(115, "skinny128_xor_tk1 xors tk.row[1] into both schedule words in the 32-bit path", ["C12.R6", "C04.R1"],
+     ("src/skinny128-cipher.c", "        ks->schedule[index].row[0] ^= tk.row[0];\n        ks->schedule[index].row[1] ^= tk.row[1];\n#endif\n\n        /* Permute TK1 for the next round */\n        skinny128_permute_tk(&tk);\n    }\n}\n",
+      "        ks->schedule[index].row[0] ^= tk.row[1];\n        ks->schedule[index].row[1] ^= tk.row[1];\n#endif\n\n        /* Permute TK1 for the next round */\n        skinny128_permute_tk(&tk);\n    }\n}\n"))
